@@ -52,6 +52,13 @@ def generate(rng, tier):
             for msk in c['nan']:
                 if sum(not x for x in msk) < 2:
                     msk[0] = msk[1] = False
+        if kind in ('sqrt', 'positive', 'custom') and rng.random() < 0.4:
+            # element-wise transforms of RDMs with missing entries (e.g. after a pattern bootstrap): missing stays missing,
+            # everything else is transformed (seeded change C17-m7)
+            c['nan'] = [[rng.random() < 0.2 for _ in range(m)] for _ in range(nr)]
+            for msk in c['nan']:
+                if sum(not x for x in msk) < 2:
+                    msk[0] = msk[1] = False
         if kind == 'geotopo':
             lo8 = rng.choice([0, 1, 2, 3])
             c['low'], c['up'] = lo8 / 8, rng.choice([5, 6, 7, 8]) / 8
@@ -69,7 +76,7 @@ def run(c):
     import importlib
     T = importlib.import_module('rsatoolbox.rdm.transform')
     arr = np.array(c['v8'], dtype=float) / 8
-    if c['kind'] == 'rank':
+    if c.get('nan'):
         arr[np.array(c['nan'])] = np.nan
     pd = {'cond': [f'c{i}' for i in range(c['n_cond'])]}
     rd = {'sess': list(range(arr.shape[0]))}
@@ -126,10 +133,11 @@ def to_coq_multi(c, o):
         if k == 'rank':
             vin = [None if c['nan'][i][j] else x for j, x in enumerate(v)]
             terms.append(f"(TRank {RCOQ[c['method']]} {fov(vin)} {fov(out)})")
-        elif k == 'sqrt':
-            terms.append(f'(TSqrt {fqlist(v)} {fqlist(out)})')
-        elif k == 'positive':
-            terms.append(f'(TPositive {fqlist(v)} {fqlist(out)})')
+        elif k in ('sqrt', 'positive'):
+            if c.get('nan'):      # the entries that are present (that missing entries stay missing is checked by the oracle)
+                keep = [j for j in range(len(v)) if not c['nan'][i][j]]
+                v, out = [v[j] for j in keep], [out[j] for j in keep]
+            terms.append(f"({'TSqrt' if k == 'sqrt' else 'TPositive'} {fqlist(v)} {fqlist(out)})")
         elif k == 'minmax':
             terms.append(f'(TMinmax {fqlist(v)} {fqlist(out)})')
         elif k == 'geodesic':
@@ -190,6 +198,10 @@ def oracle(c, o):
     if o['measure'] != want_measure:
         return f"measure name {o['measure']!r}, expected {want_measure!r}"
     out = np.array([[np.nan if x is None else (np.inf if x == 'inf' else x) for x in row] for row in o['out']], float)
+    if c.get('nan') and k != 'rank':
+        arr[np.array(c['nan'])] = np.nan
+        if not np.array_equal(np.isnan(out), np.isnan(arr)):
+            return f'{k} transform: the missing entries of the result {np.isnan(out).tolist()} are not those of the source {np.isnan(arr).tolist()}'
     if k == 'rank':
         arr[np.array(c['nan'])] = np.nan
         for i, v in enumerate(arr):
@@ -213,17 +225,17 @@ def oracle(c, o):
             if not (np.array_equal(np.isnan(out[i]), ~p) and np.allclose(out[i][p], want)):
                 return f'rank_transform({meth}): RDM {i} ranks {out[i]} != {want} among its non-missing entries'
     elif k == 'sqrt':
-        if not np.allclose(out, np.sqrt(np.maximum(arr, 0))):
+        if not np.allclose(out, np.sqrt(np.maximum(arr, 0)), equal_nan=True):
             return 'sqrt_transform != sqrt(max(x,0))'
     elif k == 'positive':
-        if not np.array_equal(out, np.maximum(arr, 0)):
+        if not np.array_equal(out, np.maximum(arr, 0), equal_nan=True):
             return 'positive_transform != max(x,0)'
     elif k == 'minmax':
         for i, v in enumerate(arr):
             if not np.allclose(out[i], (v - v.min()) / (v.max() - v.min())):
                 return f'minmax_transform: RDM {i} is not (x-min)/(max-min)'
     elif k == 'custom':
-        if not np.allclose(out, 3 * arr + 1):
+        if not np.allclose(out, 3 * arr + 1, equal_nan=True):
             return 'transform(fun) did not apply the function to the vectors'
     elif k == 'geotopo':
         lo, hi = np.quantile(arr, c['low']), np.quantile(arr, c['up'])
@@ -289,6 +301,13 @@ def support(rng, tier):
                     np.allclose(compare(sqrt_transform(r), RDMs(B), method), base, atol=1e-12) and \
                     np.allclose(compare(transform(r, lambda x: x ** 3), RDMs(B), method), base, atol=1e-12)
                 res.append((f'{method}_invariant_rank_transform_{rm}_{rep}', bool(ok), dict(method=method, rank_method=rm)))
+        # an RDM with tied entries compared with an increasing image of itself: the same value as with itself (seeded change
+        # C17-m8: a shortcut for value-identical inputs)
+        for method in ['spearman', 'rho-a', 'tau-a', 'kendall']:
+            base = compare(At, At, method)
+            ok = all(np.allclose(compare(f(At), At, method), base, atol=1e-12) and np.allclose(compare(At, f(At), method), base, atol=1e-12)
+                     for f in incr[:3])
+            res.append((f'{method}_self_with_ties_invariant_{rep}', bool(ok), dict(method=method, rdm=At.tolist(), with_itself=base.tolist())))
         for method in ['cosine', 'cosine_cov']:
             base = compare(A, B, method)
             res.append((f'{method}_scale_invariant_{rep}', bool(np.allclose(compare(3.5 * A, 0.25 * B, method), base, atol=1e-9)),
